@@ -1011,7 +1011,7 @@ fn exhaustive(args: &Args) -> i32 {
         a.club_penalty = 10;
         a.final_widow_penalty = 100;
         a.broken_penalty = 1000;
-        settings.push((a, vec![pt(12.0)], vec![]));
+        settings.push((a, vec![pt(6.0)], vec![]));
         let mut b = kp::Params::plain_tex_defaults();
         b.tolerance = 10000;
         b.club_penalty = 7;
@@ -1019,7 +1019,7 @@ fn exhaustive(args: &Args) -> i32 {
         b.broken_penalty = 0;
         b.left_skip = common::Glue { width: Scaled(pt(1.0)), ..common::Glue::ZERO };
         b.right_skip = common::Glue { stretch: Scaled(pt(30.0)), ..common::Glue::ZERO };
-        settings.push((b, vec![pt(9.0), pt(14.0)], vec![pt(1.0), pt(2.0), pt(3.0)]));
+        settings.push((b, vec![pt(11.0), pt(7.0)], vec![pt(1.0), pt(2.0), pt(3.0)]));
     }
     let mut lists = 0u64;
     for len in 1..=maxlen {
